@@ -37,8 +37,15 @@ def gsel(D, tier):
     return [0, 1, 5, 9, 12, 17, 24, 26, 31, 33, 40, 47]
 
 
+def _jobs_orderings(tier):
+    out = [("gvc.props.c05", "ob_contraction_orderings", dict(D=2, k=4, tier=tier)), ("gvc.props.c05", "ob_contraction_orderings", dict(D=2, k=5, tier=tier))]
+    if tier != "quick":
+        out += [("gvc.props.c05", "ob_contraction_orderings", dict(D=3, k=4, tier=tier)), ("gvc.props.c05", "ob_contraction_orderings", dict(D=2, k=6, tier=tier))]
+    return out
+
+
 def jobs(tier):
-    out = [("gvc.props.c05", "ob_levi_symbol", {}), ("gvc.props.c05", "ob_identities", dict(tier=tier))]
+    out = [("gvc.props.c05", "ob_levi_symbol", {}), ("gvc.props.c05", "ob_identities", dict(tier=tier))] + _jobs_orderings(tier)
     q = tier == "quick"
     for D in [2, 3]:
         kmax = (2 if q else 3) if D == 2 else (1 if q else 2)
@@ -211,6 +218,81 @@ def ob_identities(tier):
                 return arr.compare(ba.transpose(perm).data, ab.data, "b*a transposed vs a*b")
             obs.append(guard(f"C05/lemma:tensor-product-commutes-up-to-transposition/D={D},k=({k1},{k2})", "lemma",
                              lambda body_comm=body_comm, W=W: all_paths(W.pre, body_comm, lambda r: r), dict(D=D)))
+    return obs
+
+
+def contract_spec(A, D, k, pairs):
+    """Kronecker contraction written from the statement: result[x, r] = sum over one index value per pair of A[x, t], where t
+    agrees with r on the un-contracted positions (kept in increasing order) and has the pair's summation value at both of its
+    positions.  Independent of how the pairs are ordered or oriented by construction."""
+    import itertools
+    from ..arr import t_bin
+    used = {i for pr in pairs for i in pr}
+    rest = [i for i in range(k) if i not in used]
+    dims = list(A.dims[:len(A.dims) - k]) + [Atom(D) for _ in rest]
+    nsp = len(A.dims) - k
+
+    def elem(idx):
+        x, r = list(idx[:nsp]), list(idx[nsp:])
+        if any(arr.is_z3(v) for v in r):
+            raise sym.OutOfReach("contract_spec needs concrete tensor indices")
+        tot = 0
+        for vals in itertools.product(range(D), repeat=len(pairs)):
+            t = [None] * k
+            for pos, v in zip(rest, r):
+                t[pos] = int(v)
+            for (a, b), v in zip(pairs, vals):
+                t[a] = t[b] = v
+            tot = t_bin("add", tot, A.elem(x + t))
+        return tot
+    return arr.SArray(dims, elem, "real")
+
+
+def ob_contraction_orderings(D, k, tier):
+    """the statement's clause 'contraction is independent of the order of the pairs and of the order inside a pair', in full: for
+    EVERY way of choosing npairs disjoint index pairs of a k-tensor, every ordering of the pairs and every orientation of each pair,
+    the real multicontract (method and functional entry point) equals contract_spec of the un-ordered pairing"""
+    import itertools
+    Gm = geom()
+    arr.ENUM_SMALL[0] = 3
+    W = World(D)
+    A = arr.source("A", W.spatial + [Atom(D) for _ in range(k)])
+    obs = []
+
+    def pairings(idxs, n):
+        if n == 0:
+            yield []
+            return
+        idxs = list(idxs)
+        for ai in range(len(idxs)):
+            for bi in range(ai + 1, len(idxs)):
+                a, b = idxs[ai], idxs[bi]
+                rest = [i for i in idxs[ai + 1:] if i != b]       # first elements increasing: each pairing once
+                for more in pairings(rest, n - 1):
+                    yield [(a, b)] + more
+    for npairs in ([2] if k < 6 else [2, 3]):
+        for pairing in pairings(range(k), npairs):
+            spec = contract_spec(A, D, k, pairing)
+
+            def body(pairing=pairing, spec=spec, npairs=npairs):
+                a = Gm.GeometricImage(A, 1, D)
+                n = 0
+                for order in itertools.permutations(range(npairs)):
+                    for flips in itertools.product([0, 1], repeat=npairs):
+                        idx = tuple((pairing[o][1], pairing[o][0]) if f else pairing[o] for o, f in zip(order, flips))
+                        out = a.multicontract(idx)
+                        if (out.k, out.parity, out.D) != (k - 2 * npairs, 1, D):
+                            return "refuted", f"multicontract({idx}) declares type {(out.k, out.parity)}", None
+                        st = arr.compare(out.data, spec, f"multicontract({idx}) vs the un-ordered contraction")
+                        if st[0] != "proved":
+                            return st
+                        n += 1
+                return "proved", f"{n} orderings / orientations agree with the definition", None
+            nm = ",".join(f"{a}{b}" for a, b in pairing)
+            o = guard(f"C05/multicontract/D={D},k={k},pairing={nm}/ensures:independent-of-pair-order-and-orientation", "ensures",
+                      lambda body=body: all_paths(W.pre, body, lambda r: r), dict(D=D, k=k, pairing=nm))
+            o["replay"] = dict(op="multicontract_orderings", D=D, k=k, pairing=[list(pr) for pr in pairing], model=o.get("model"))
+            obs.append(o)
     return obs
 
 
